@@ -24,6 +24,7 @@ use std::sync::Arc;
 use std::task::{Context, Poll, RawWaker, RawWakerVTable, Waker};
 use std::time::Duration;
 
+mod budget;
 mod bulkhead;
 mod ratelimiter;
 mod roundrobin;
@@ -121,16 +122,26 @@ pub struct Req {
     pub slow_drop: u32,
 }
 
-/// The request is inside the wrapped service until its future's destructor has *returned*; the
-/// destructor is slow when the request says so (it gives the processor away a few times first),
-/// like a connection that is handed back to a pool.
-pub struct Guard(Arc<Shared>, u32);
+/// A request is inside the wrapped service from `call()` until its future completes or, if it
+/// never completes, until the future's destructor has *returned*; that destructor is slow when
+/// the request says so (it gives the processor away a few times first), like a connection
+/// that is handed back to a pool. A completed future that is dropped late counts for nothing.
+pub struct Guard {
+    sh: Arc<Shared>,
+    slow_drop: u32,
+    done: bool,
+    id: usize,
+}
 impl Drop for Guard {
     fn drop(&mut self) {
-        for _ in 0..self.1 {
+        if self.done {
+            return;
+        }
+        for _ in 0..self.slow_drop {
             std::thread::yield_now();
         }
-        self.0.in_flight.fetch_sub(1, SeqCst);
+        self.sh.in_flight.fetch_sub(1, SeqCst);
+        note(3, self.id);
     }
 }
 
@@ -138,21 +149,52 @@ pub struct InnerFut {
     left: u32,
     fail: bool,
     id: usize,
-    _g: Guard,
+    g: Guard,
 }
 impl Future for InnerFut {
     type Output = Result<usize, &'static str>;
     fn poll(mut self: Pin<&mut Self>, _cx: &mut Context<'_>) -> Poll<Self::Output> {
+        if self.g.done {
+            panic!("inner future polled after completion");
+        }
         if self.left > 0 {
             self.left -= 1;
             return Poll::Pending;
         }
+        self.g.done = true;
+        self.g.sh.in_flight.fetch_sub(1, SeqCst);
+        note(2, self.id);
         if self.fail {
             Poll::Ready(Err("inner"))
         } else {
             Poll::Ready(Ok(self.id))
         }
     }
+}
+
+// ---------------------------------------------------------------------------------------------
+// event trace: who entered / left / was answered, in the order it happened (its digest is the
+// measure of distinct interleavings and the thing two runs of one execution must agree on)
+
+static TRACE: std::sync::Mutex<Vec<u64>> = std::sync::Mutex::new(Vec::new());
+
+/// kinds: 1 entered, 2 completed, 3 dropped unfinished, 4 answered ok, 5 answered own error,
+/// 6 answered inner error, 7 cancelled by its caller, 8 selection
+pub fn note(kind: u64, id: usize) {
+    TRACE.lock().unwrap().push((kind << 32) | id as u64);
+}
+
+pub fn trace_digest_and_reset() -> (u64, usize) {
+    let mut t = TRACE.lock().unwrap();
+    let mut h: u64 = 0xcbf2_9ce4_8422_2325;
+    for e in t.iter() {
+        for b in e.to_le_bytes() {
+            h = (h ^ b as u64).wrapping_mul(0x0000_0100_0000_01b3);
+        }
+    }
+    let n = t.len();
+    t.clear();
+    (h, n)
 }
 
 impl tower_service::Service<Req> for Inner {
@@ -169,15 +211,19 @@ impl tower_service::Service<Req> for Inner {
         if r.id < self.sh.entered.len() {
             self.sh.entered[r.id].fetch_add(1, SeqCst);
         }
+        note(1, r.id);
         if n > self.sh.max {
             self.sh.violated.store(true, SeqCst);
         }
-        InnerFut { left: r.pends, fail: r.fail, id: r.id, _g: Guard(self.sh.clone(), r.slow_drop) }
+        InnerFut { left: r.pends, fail: r.fail, id: r.id, g: Guard { sh: self.sh.clone(), slow_drop: r.slow_drop, done: false, id: r.id } }
     }
 }
 
+static WSEED: std::sync::atomic::AtomicU64 = std::sync::atomic::AtomicU64::new(0);
+
 pub fn violation(rule: &str, what: String) -> ! {
-    println!("MSIM-VIOLATION rule={} {}", rule, what);
+    let (d, n) = trace_digest_and_reset();
+    println!("MSIM-VIOLATION rule={} {} (wseed {} trace {:016x}/{})", rule, what, WSEED.load(SeqCst), d, n);
     std::process::exit(101);
 }
 
@@ -185,23 +231,35 @@ pub fn paused_runtime() -> tokio::runtime::Runtime {
     tokio::runtime::Builder::new_current_thread().enable_time().start_paused(true).build().expect("runtime")
 }
 
-pub const FOREVER: Duration = Duration::from_secs(3600 * 24 * 365);
-
 fn main() {
     let args: Vec<String> = std::env::args().collect();
     if args.len() < 3 {
-        eprintln!("usage: msim <bulkhead|ratelimiter|roundrobin> <workload-seed>");
+        eprintln!("usage: msim <bulkhead|ratelimiter|roundrobin> <workload-seed | from..to>");
         std::process::exit(2);
     }
-    let wseed: u64 = args[2].parse().expect("workload seed");
-    match args[1].as_str() {
-        "bulkhead" => bulkhead::run(wseed),
-        "ratelimiter" => ratelimiter::run(wseed),
-        "roundrobin" => roundrobin::run(wseed),
+    let (w0, w1) = match args[2].split_once("..") {
+        Some((a, b)) => (a.parse::<u64>().expect("from"), b.parse::<u64>().expect("to")),
+        None => {
+            let w = args[2].parse::<u64>().expect("workload seed");
+            (w, w + 1)
+        }
+    };
+    let scenario: fn(u64, &tokio::runtime::Runtime) = match args[1].as_str() {
+        "bulkhead" => bulkhead::run,
+        "budget" => budget::run,
+        "ratelimiter" => ratelimiter::run,
+        "roundrobin" => roundrobin::run,
         other => {
             eprintln!("unknown scenario {}", other);
             std::process::exit(2);
         }
+    };
+    // one paused runtime for the whole process (building one is the expensive part under Miri)
+    let rt = paused_runtime();
+    for w in w0..w1 {
+        WSEED.store(w, SeqCst);
+        scenario(w, &rt);
+        let (d, n) = trace_digest_and_reset();
+        println!("MSIM-OK scenario={} wseed={} trace={:016x}/{}", args[1], w, d, n);
     }
-    println!("MSIM-OK scenario={} wseed={}", args[1], wseed);
 }
